@@ -608,3 +608,16 @@ _add(
     m("collapse-indexes-orphan", S, "        if self in parent_job.child_jobs:\n            parent_job.child_jobs[parent_job.child_jobs.index(self)] = other_job", "        if True:\n            parent_job.child_jobs[parent_job.child_jobs.index(self)] = other_job", "C20.10"),
     m("root-task-ignores-options", S, "        for arg in iter_nested_value((expr.args, expr.kwargs, default_kwargs, options))", "        for arg in iter_nested_value((expr.args, expr.kwargs, default_kwargs))", "C20.10"),
 )
+_add(
+    "C17",
+    m("hash-before-validate", T, "        self._validate()\n        self.recompute_hash()\n", "        self.recompute_hash()\n        self._validate()\n", "C17.6"),
+)
+_add(
+    "C18",
+    m("scheduler-call-drops-export-options", T, "                task_options=self._task_options_override,\n                export_options=self._export_options,\n                length=self.nout,", "                task_options=self._task_options_override,\n                length=self.nout,", "C18.5"),
+    m("partial-setstate-plain-task", T, "        self.task = task_class.__new__(task_class)", "        self.task = Task.__new__(Task)", "C18.6"),
+)
+_add(
+    "C27",
+    m("partial-task-inherits-export-options", T, "    def export_options(self, **task_options_update: Any) -> \"PartialTask[..., R]\":\n        \"\"\"\n        Returns a new PartialTask with exported option overrides.\n        \"\"\"\n        return self.task.export_options(**task_options_update).partial(*self.args, **self.kwargs)\n\n", "", "C27.8"),
+)
